@@ -103,6 +103,11 @@ func c08Row(rt *rapid.T, cols []model.Col, rid int64, direct bool, exact int) ([
 }
 
 func c08WrongKind(rt *rapid.T, ct model.ColType) model.Val {
+	if rapid.IntRange(0, 3).Draw(rt, "gokind") == 0 {
+		// Go kinds mkdb stores in no column: an unsigned value beyond the signed range (and a small
+		// one), a float - refused, never wrapped or truncated into the column
+		return rapid.SampledFrom([]model.Val{model.Uint(1<<63 + 7), model.Uint(18446744073709551611), model.Uint(5), model.Float(3)}).Draw(rt, "wronggo")
+	}
 	switch ct {
 	case model.TInt, model.TBigInt:
 		return rapid.SampledFrom([]model.Val{model.Str("12"), model.Bool(true), model.Str("")}).Draw(rt, "wrong")
@@ -282,7 +287,7 @@ func c08Run(c c08Case, st *vlib.Stats) string {
 	dir := CaseDir("c08")
 	eng, err := mk.Start(dir)
 	if err == nil {
-		if err = eng.Exec("CREATE DATABASE " + DBName); err == nil {
+		if err = CreateDatabases(eng); err == nil {
 			err = eng.Exec("USE " + DBName)
 		}
 	}
